@@ -125,6 +125,33 @@ def snapshot(engine, top, ignore):
     return snap
 
 
+_LOWERED = {}
+
+
+def lowered_engine_class(new_threshold):
+    """The real NonBondEngine with the literal of `self.position_trees[-1].n > 5000` in `add_positions`
+    replaced in a copy of the code object (harness-side subclass, /repo untouched), so that the branch that
+    opens a new position tree for the first residue of a molecule is taken in small systems.  The literal is
+    located by the translator (tables/walk.py, engTreeThreshold)."""
+    if new_threshold in _LOWERED:
+        return _LOWERED[new_threshold]
+    import types
+    from tables import walk as walk_tables
+    from polyply.src.nonbond_engine import NonBondEngine
+    literal = walk_tables.extract()["engTreeThreshold"]
+    func = NonBondEngine.add_positions
+    code = func.__code__
+    hits = [i for i, c in enumerate(code.co_consts) if type(c) is int and c == literal]
+    if len(hits) != 1:
+        raise RuntimeError("literal %r not found exactly once in NonBondEngine.add_positions" % literal)
+    consts = tuple(new_threshold if i == hits[0] else c for i, c in enumerate(code.co_consts))
+    patched = types.FunctionType(code.replace(co_consts=consts), func.__globals__, func.__name__,
+                                 func.__defaults__, func.__closure__)
+    patched.__kwdefaults__ = func.__kwdefaults__
+    _LOWERED[new_threshold] = type("NonBondEngineLowT", (NonBondEngine,), {"add_positions": patched})
+    return _LOWERED[new_threshold]
+
+
 class Recorder:
     def __init__(self, top, case):
         self.top, self.case = top, case
@@ -154,8 +181,13 @@ def run_real(case):
     kwargs = {}
     if case["nrewind"] is not None:
         kwargs["nrewind"] = case["nrewind"]
+    if case.get("bs_maxiter") is not None:
+        kwargs["maxiter"] = case["bs_maxiter"]       # BuildSystem's bound on consecutive failed attempts
     builder = build_system.BuildSystem(top, density=None, start_dict=start_dict, box=BOX.copy(),
                                        grid=np.array([[5.0, 5.0, 5.0]]), ignore=list(case["ignore"]), **kwargs)
+    engine_cls = None
+    if case.get("tree_threshold") is not None:
+        engine_cls = lowered_engine_class(case["tree_threshold"])
     if case["maxiter"] is not None:
         # RandomWalk's own `maxiter` cannot be passed through BuildSystem's keyword of the same name
         builder.rwargs = dict(builder.rwargs, maxiter=case["maxiter"])
@@ -186,6 +218,9 @@ def run_real(case):
 
     saved = (random_walk.RandomWalk.update_positions, random_walk.RandomWalk._is_overlap,
              random_walk.RandomWalk.run_molecule)
+    saved_engine = build_system.NonBondEngine
+    if engine_cls is not None:
+        build_system.NonBondEngine = engine_cls
     random_walk.RandomWalk.update_positions = scripted_update
     random_walk.RandomWalk._is_overlap = scripted_overlap
     random_walk.RandomWalk.run_molecule = counted_run
@@ -203,6 +238,7 @@ def run_real(case):
     finally:
         (random_walk.RandomWalk.update_positions, random_walk.RandomWalk._is_overlap,
          random_walk.RandomWalk.run_molecule) = saved
+        build_system.NonBondEngine = saved_engine
     engine = builder.nonbond_matrix
     if result["finished"] or result["stuck"]:
         rec.trace.append(dict(trial=None, eng=snapshot(engine, top, case["ignore"])))
@@ -314,7 +350,8 @@ def judge(ctx, case, real, run_ans, spec_ans):
     fails = case["sched"][:real["used"]].count(False)
     key = None
     if fails:
-        key = json.dumps([case["mols"], case["ignore"], case["nrewind"], case["maxiter"], _bits(case["sched"][:real["used"]])],
+        key = json.dumps([case["mols"], case["ignore"], case["nrewind"], case["maxiter"], case.get("bs_maxiter"),
+                          case.get("tree_threshold"), _bits(case["sched"][:real["used"]])],
                          sort_keys=True)
     ctx.traces += 1
     ctx.case(key, sample=dict(mols=[dict(n=len(s["nodes"]), edges=s["edges"], build=sorted(s["build"])) for s in case["mols"]],
@@ -323,7 +360,25 @@ def judge(ctx, case, real, run_ans, spec_ans):
              nrewind=case["nrewind"], supplied=any(s["supplied"] for s in case["mols"]),
              ignored=bool(case["ignore"]), dfs=any(s["dfs"] for s in case["mols"]),
              consumed=_bucket(real["used"]), failures=_bucket(fails), end=impl_end.split(":")[0],
+             bs_maxiter=case.get("bs_maxiter"), tree_threshold=case.get("tree_threshold"),
+             attempts_abandoned=_bucket(_abandoned(impl_trace)),
              stream=case.get("stream", "?"))
+
+
+def _abandoned(trace):
+    """histogram only: how often a molecule came back to the first trial of an attempt (a start trial, or
+    the first walk trial the molecule ever had) right after another trial of the same molecule"""
+    count, prev, first = 0, None, {}
+    for state in trace:
+        trial = state["trial"]
+        if trial is None:
+            continue
+        key = tuple(trial)
+        first.setdefault(trial[0], key)
+        if prev is not None and prev[0] == trial[0] and key == first[trial[0]]:
+            count += 1
+        prev = trial
+    return count
 
 
 def _bits(sched):
@@ -410,7 +465,13 @@ def gen_system(rng, max_mols, max_n, small=False):
             ignore = [ign]
     nrewind = rng.choice([None, 0, 1, 2, 3, 5, 7])
     maxiter = rng.choice([None, None, 1, 2, 3, 6])
-    return dict(mols=mols, ignore=ignore, nrewind=nrewind, maxiter=maxiter)
+    # BuildSystem.maxiter: after maxiter + 1 failed attempts in a row _handle_random_walk gives up and
+    # _compose_system starts over with the same molecule; small values make that branch reachable
+    bs_maxiter = rng.choice([None, None, 0, 1, 2])
+    # size above which the first residue of a molecule opens a new position tree (None = the real 5000)
+    tree_threshold = rng.choice([None, None, 0, 1, 2, 4])
+    return dict(mols=mols, ignore=ignore, nrewind=nrewind, maxiter=maxiter, bs_maxiter=bs_maxiter,
+                tree_threshold=tree_threshold)
 
 
 def random_schedule(rng, length):
